@@ -478,10 +478,22 @@ fn span_json(tcx: TyCtxt<'_>, sp: Span, o: &mut J) {
     o.put("line", J::UInt(line_of(tcx, root) as u128));
     if sp.from_expansion() {
         let mut names = Vec::new();
+        let mut cfgs = Vec::new();
         for e in sp.macro_backtrace() {
-            names.push(J::s(e.kind.descr()));
+            let d = e.kind.descr();
+            if d == "cfg!" {
+                // which configuration predicate: cfg!(debug_assertions) regions are exempt from
+                // several rules, cfg!(feature = ..) / cfg!(target_..) ones are not
+                if let Ok(snip) = tcx.sess.source_map().span_to_snippet(e.call_site) {
+                    cfgs.push(J::s(&snip.chars().filter(|c| !c.is_whitespace()).collect::<String>()));
+                }
+            }
+            names.push(J::s(d));
         }
         o.put("expn", J::Arr(names));
+        if !cfgs.is_empty() {
+            o.put("cfgsrc", J::Arr(cfgs));
+        }
     }
 }
 
